@@ -219,6 +219,68 @@ pub fn check_hetero(c: &Hetero) -> Outcome {
     pass_n(c.list.len() >= 2 || c.outer.is_some(), vec!["heterogeneous-list"])
 }
 
+/// a map *literal* written directly as the receiver of a macro ranges over the same keys as that literal reached indirectly
+/// (`[M][0]`, or the value of M bound to a variable) - including literals that spell a key more than once
+#[derive(Clone, Debug, Serialize, Deserialize)]
+pub struct LitRecv {
+    pub map_src: String,
+    /// macro call text with K as the iteration variable, e.g. `map(K, K)`
+    pub call: String,
+    pub nested: bool,
+}
+
+pub fn check_literal_receiver(c: &LitRecv) -> Outcome {
+    let call = c.call.replace('K', "k");
+    let wrap = |recv: &str| if c.nested { format!("[0].map(x, {recv}.{call})") } else { format!("{recv}.{call}") };
+    let value = match sut::run_src(&c.map_src, &[]) {
+        Ran::Done(crate::sut::R::Val(v @ V::Map(_))) => v,
+        Ran::Done(crate::sut::R::Err(..)) | Ran::NoCompile(_) => return Outcome::Skip("map-literal-is-rejected"),
+        o => return fail(format!("`{}`: {}", c.map_src, o.show())),
+    };
+    let direct = sut::run_src(&wrap(&c.map_src), &[]);
+    let indexed = sut::run_src(&wrap(&format!("[{}][0]", c.map_src)), &[]);
+    let bound = sut::run_src(&wrap("m"), &[("m".to_string(), value.clone())]);
+    let eq = |a: &Ran, b: &Ran| -> bool {
+        fn same_unordered(a: &V, b: &V) -> bool {
+            match (a, b) {
+                (V::List(x), V::List(y)) => {
+                    if x.len() != y.len() {
+                        return false;
+                    }
+                    let mut used = vec![false; y.len()];
+                    x.iter().all(|p| match (0..y.len()).find(|i| !used[*i] && same_unordered(p, &y[*i])) {
+                        Some(i) => {
+                            used[i] = true;
+                            true
+                        }
+                        None => false,
+                    })
+                }
+                _ => same(a, b),
+            }
+        }
+        match (a, b) {
+            (Ran::Done(crate::sut::R::Val(x)), Ran::Done(crate::sut::R::Val(y))) => same_unordered(x, y),
+            (Ran::Done(crate::sut::R::Err(..)), Ran::Done(crate::sut::R::Err(..))) => true,
+            _ => false,
+        }
+    };
+    if !eq(&direct, &indexed) || !eq(&direct, &bound) {
+        return fail(format!(
+            "`{}` gives {}, but the same literal reached through an index gives {} and its value ({value:?}) bound to a variable gives {}: the macro does not range over the map the literal denotes",
+            wrap(&c.map_src),
+            direct.show(),
+            indexed.show(),
+            bound.show()
+        ));
+    }
+    let n = match &value {
+        V::Map(es) => es.len(),
+        _ => 0,
+    };
+    pass_n(true, vec![if c.map_src.matches(':').count() > n { "literal-receiver-with-a-repeated-key" } else { "literal-receiver" }])
+}
+
 fn multiset_eq(a: &[V], b: &[V]) -> bool {
     if a.len() != b.len() {
         return false;
@@ -363,6 +425,19 @@ pub fn run(r: &mut Runner) {
         },
         check,
     );
+    {
+        let maps = ["{'a': 1, 'a': 2}", "{'a': 1, 'b': 2, 'a': 3}", "{1: 0, 1: 1, 1: 2}", "{true: 0, true: 1}", "{2u: 0, 2u: 1, 3u: 0}", "{'a': 1}", "{'a': 1, 'b': 2}", "{1: 'x', 2: 'y', 3: 'z'}", "{}", "{1: 0, 1u: 1}", "{'k': [1], 'k': [2]}"];
+        let calls = ["map(K, K)", "map(K, true, K)", "map(K, [K])", "filter(K, true)", "filter(K, K == K)", "exists_one(K, K == K)", "exists_one(K, true)", "existsOne(K, true)", "all(K, K == K)", "exists(K, K != K)", "map(K, K == K, [K, K])", "filter(K, false)"];
+        let mut cases = vec![];
+        for m in maps {
+            for c in calls {
+                for nested in [false, true] {
+                    cases.push(LitRecv { map_src: m.to_string(), call: c.to_string(), nested });
+                }
+            }
+        }
+        r.sweep("map-literals-as-direct-receivers", cases, check_literal_receiver);
+    }
     r.random(
         "random-maps",
         80,
